@@ -24,6 +24,9 @@ type C20Case struct {
 	Doc    []byte `json:"doc"`
 	Format string `json:"format"` // text pretty binary events none "" (default)
 	Stdin  bool   `json:"stdin"`
+	// Opts: 1 = no -o (output on stdout), 2 = no -e (error report on stderr),
+	// 4 = long option names and "--" before the input file
+	Opts int `json:"opts,omitempty"`
 }
 
 type cliResult struct {
@@ -52,9 +55,22 @@ func runCLI(c C20Case) cliResult {
 	stale := bytes.Repeat([]byte("stale output from an earlier run\n"), 4000)
 	os.WriteFile(out, stale, 0o644)
 	os.WriteFile(errf, stale, 0o644)
-	args := []string{"process", "-o", out, "-e", errf}
+	oo, oe, of := "-o", "-e", "-f"
+	if c.Opts&4 != 0 {
+		oo, oe, of = "--output", "--error-report", "--output-format"
+	}
+	args := []string{"process"}
+	if c.Opts&1 == 0 {
+		args = append(args, oo, out)
+	}
+	if c.Opts&2 == 0 {
+		args = append(args, oe, errf)
+	}
 	if c.Format != "" {
-		args = append(args, "-f", c.Format)
+		args = append(args, of, c.Format)
+	}
+	if c.Opts&4 != 0 && !c.Stdin {
+		args = append(args, "--")
 	}
 	cmd := exec.Command(cli, args...)
 	if c.Stdin {
@@ -74,7 +90,15 @@ func runCLI(c C20Case) cliResult {
 	}
 	r.out, _ = os.ReadFile(out)
 	r.errReport, _ = os.ReadFile(errf)
-	r.stderr = append(stderr.Bytes(), stdout.Bytes()...)
+	r.stderr = append([]byte{}, stderr.Bytes()...)
+	if c.Opts&2 != 0 {
+		r.errReport = append([]byte{}, stderr.Bytes()...)
+	}
+	if c.Opts&1 != 0 {
+		r.out = append([]byte{}, stdout.Bytes()...)
+	} else {
+		r.stderr = append(r.stderr, stdout.Bytes()...)
+	}
 	return r
 }
 
@@ -279,6 +303,9 @@ func runC20One(c C20Case) string {
 		})
 	}
 	route := map[bool]string{true: "stdin", false: "file"}[c.Stdin]
+	if c.Opts != 0 {
+		route += fmt.Sprintf("+opts%d", c.Opts)
+	}
 	cls := "source.valid"
 	if !valid {
 		cls = map[bool]string{true: "source.invalid", false: "source.undecided"}[witness]
@@ -366,6 +393,9 @@ func runC20One(c C20Case) string {
 
 func genC20(t *rapid.T) C20Case {
 	c := C20Case{Format: "*", Stdin: gen.Chance(t, 40)}
+	if gen.Chance(t, 30) {
+		c.Opts = gen.Intn(t, 8)
+	}
 	switch gen.Intn(t, 10) {
 	case 0, 1:
 		c.Doc = genC07(t).Doc // edited (mostly invalid) documents
